@@ -316,6 +316,8 @@ class SsbScriptCompilerListener(SsbScriptListener):
         if len(self.routine_infos) - 1 < self._active_routine_id:
             needed = self._active_routine_id - len(self.routine_infos) + 1
             for i in range(0, needed):
-                self.routine_infos.append(None)  # type: ignore
+                # Ids that the script skips stay in the tables as empty generic routines, the slot of the routine
+                # that was just read is overwritten by the caller.
+                self.routine_infos.append(SsbRoutineInfo(SsbRoutineType.GENERIC, 0))
                 self.routine_ops.append([])
                 self.named_coroutines.append([])  # type: ignore
